@@ -19,6 +19,8 @@ type SolverRes struct {
 	Output string
 }
 
+var solverSem = make(chan struct{}, 16)
+
 var solverOrder = []string{"z3-new", "z3-new-noext", "z3-new-snf", "cvc5", "z3"}
 
 func solverCmd(name, file string, timeout time.Duration) *exec.Cmd {
@@ -46,8 +48,47 @@ func solverCmd(name, file string, timeout time.Duration) *exec.Cmd {
 }
 
 func runSolver(name, file string, timeout time.Duration) SolverRes {
+	return runSolverCtx(context.Background(), name, file, timeout)
+}
+
+// race runs every strategy concurrently and returns the first definite answer ("unsat", or
+// "sat" from an unweakened strategy); the others are killed.
+func race(file string, timeout time.Duration, strategies []string) SolverRes {
+	ctx, cancel := context.WithCancel(context.Background())
+	defer cancel()
+	ch := make(chan SolverRes, len(strategies))
+	for _, s := range strategies {
+		s := s
+		go func() {
+			solverSem <- struct{}{}
+			defer func() { <-solverSem }()
+			if ctx.Err() != nil {
+				ch <- SolverRes{Answer: "unknown", Solver: s}
+				return
+			}
+			r := runSolverCtx(ctx, s, file, timeout)
+			if r.Answer == "sat" && (strings.Contains(s, "noext") || strings.Contains(s, "snf")) {
+				r.Answer = "unknown"
+			}
+			ch <- r
+		}()
+	}
+	best := SolverRes{Answer: "unknown"}
+	for range strategies {
+		r := <-ch
+		if r.Answer == "unsat" || r.Answer == "sat" {
+			return r
+		}
+		if best.Solver == "" || (r.Answer == "unknown" && best.Answer != "unknown") {
+			best = r
+		}
+	}
+	return best
+}
+
+func runSolverCtx(parent context.Context, name, file string, timeout time.Duration) SolverRes {
 	start := time.Now()
-	ctx, cancel := context.WithTimeout(context.Background(), timeout+2*time.Second)
+	ctx, cancel := context.WithTimeout(parent, timeout+2*time.Second)
 	defer cancel()
 	cmd := solverCmd(name, file, timeout)
 	cmd2 := exec.CommandContext(ctx, cmd.Path, cmd.Args[1:]...)
